@@ -25,6 +25,15 @@ CLAIMED = {
         "Trusted: z3 QF_BV, the RXA regex encoding (differentially validated against `re`), the SXM/DSE interpreters (validated by replay), the lexical DFA in fv/oracles.py.",
         "DESIGN.md §5 C02",
     ),
+    "C04": (
+        "symbolic execution of the REAL parser on symbolic programs (finite-choice statements: spellings x placements), assertions decided by z3",
+        "The real FortranSourceFile parser (cascade, constructors, line_to_variables, process_attribs) runs on a symbolic module / derived type "
+        "whose default-access statement, declaration attribute and access statement (absent/before/after, several spellings and letter cases) "
+        "are symbolic choices; for every combination the recorded accessibility equals Fortran's rule (F2008 5.3.2) for 8 entity kinds, "
+        "components and bindings.  Path conditions and assertions are decided by z3; models are replayed natively.",
+        "Trusted: z3, the finite-choice (CV) evaluator which applies CPython's own str/re semantics per choice, the accessibility oracle in fv/props/c04.py.",
+        "DESIGN.md §5 C04",
+    ),
     "C05": (
         "symbolic execution (path exploration with z3 feasibility/assertion queries) of the real prune/_set_display methods on stand-in entities",
         "For every combination of display subset, hide_undoc, proc_internals, child permission and documented flag (all symbolic) the real "
